@@ -1572,13 +1572,27 @@ class LangServer:
             if entry is None or entry[1] != filepath:
                 continue
             self.obj_tree.pop(key)
-            # The last file declaring the name wins, as during initialization
+            # Another file that declares the name takes it over
             for other_path, other_file in self.workspace.items():
                 if other_path == filepath or other_file.ast is None:
                     continue
                 other_obj = other_file.ast.global_dict.get(key)
                 if other_obj is not None:
-                    self.obj_tree[key] = [other_obj, other_path]
+                    self._add_file_global(key, other_obj, other_path)
+
+    def _add_file_global(self, key: str, obj, filepath: str):
+        """Enter a top-level object into the object tree. Of several files that
+        declare the same name the one whose path sorts last owns it, whatever the
+        order in which the files were read or saved"""
+        entry = self.obj_tree.get(key)
+        if (
+            entry is not None
+            and entry[1] is not None
+            and entry[1] > filepath
+            and entry[1] in self.workspace
+        ):
+            return
+        self.obj_tree[key] = [obj, filepath]
 
     def update_workspace_file(
         self,
@@ -1626,7 +1640,7 @@ class LangServer:
             self.workspace[filepath] = file_obj
         # Add top-level objects to object tree
         for key, obj in ast_new.global_dict.items():
-            self.obj_tree[key] = [obj, filepath]
+            self._add_file_global(key, obj, filepath)
         # Update local links/inheritance if necessary
         if update_links:
             self.link_version = (self.link_version + 1) % 1000
@@ -1716,7 +1730,7 @@ class LangServer:
             # Add top-level objects to object tree
             ast_new = self.workspace[path].ast
             for key in ast_new.global_dict:
-                self.obj_tree[key] = [ast_new.global_dict[key], path]
+                self._add_file_global(key, ast_new.global_dict[key], path)
         # Update include statements
         for _, file_obj in self.workspace.items():
             file_obj.ast.resolve_includes(self.workspace)
